@@ -77,12 +77,13 @@ Fixpoint resps_len (l : list fsresp) : Z :=
 Definition fin_fault_len (q : FinParams) : Z :=
   match fn_fault q with None => 0 | Some t => tlv_packet_len t end.
 
-(* _calculate_directive_field_len *)
+(* _calculate_directive_field_len: the fault location is counted only when pack() emits it *)
 Definition fin_calc_len (p : FinishedPdu) : res FinishedPdu :=
   let q := fin_params p in
   let base_len := 1 in
   let fault_loc_len :=
-    match fn_fault q with None => 0 | Some _ => fin_fault_len q end in
+    if match fn_fault q with None => true | Some _ => false end || negb (fin_might_have_fault q)
+    then 0 else fin_fault_len q in
   let base_len := if cf_crc (h_conf (fd_hdr (fin_fdir p))) =? CRC_WITH_CRC then base_len + 2 else base_len in
   do f <- fdir_set_param_len (fin_fdir p) (base_len + fault_loc_len + resps_len (fn_resps q));
   Ok {| fin_fdir := f; fin_params := q |}.
@@ -96,12 +97,13 @@ Definition fin_set_resps (p : FinishedPdu) (o : option (list fsresp)) : res Fini
   fin_calc_len {| fin_fdir := fin_fdir p;
                   fin_params := fn_with_resps (fin_params p) (match o with None => [] | Some l => l end) |}.
 
-(* condition_code setter: writes the parameter object only *)
-Definition fin_set_cc (p : FinishedPdu) (cc : Z) : FinishedPdu :=
+(* condition_code setter *)
+Definition fin_set_cc (p : FinishedPdu) (cc : Z) : res FinishedPdu :=
   let q := fin_params p in
-  {| fin_fdir := fin_fdir p;
-     fin_params := {| fn_cc := cc; fn_dc := fn_dc q; fn_fs := fn_fs q; fn_resps := fn_resps q;
-                      fn_fault := fn_fault q |} |}.
+  fin_calc_len
+    {| fin_fdir := fin_fdir p;
+       fin_params := {| fn_cc := cc; fn_dc := fn_dc q; fn_fs := fn_fs q; fn_resps := fn_resps q;
+                        fn_fault := fn_fault q |} |}.
 
 (* FinishedPdu.__init__(pdu_conf, params): returns the PDU, the caller's PduConfig afterwards
    (the constructor works on copy.copy(pdu_conf)) and the caller's parameter object afterwards
@@ -185,6 +187,9 @@ Definition fin_unpack (data : bytes) : res FinishedPdu :=
   do _ <- hdr_verify_length_and_checksum (fd_hdr f) data;
   if fdir_packet_len f >? len data then Err ETooShort else
   let current_idx := fdir_header_len f in
+  let end_of_params :=
+    if cf_crc (h_conf (fd_hdr f)) =? CRC_WITH_CRC then fdir_packet_len f - 2 else fdir_packet_len f in
+  if current_idx >=? end_of_params then Err ETooShort else
   do first_param_byte <- py_get data current_idx;
   do cc <- condition_code_of_int (Z.shiftr (Z.land first_param_byte 240) 4);
   do dc <- delivery_code_of_int (Z.shiftr (Z.land first_param_byte 4) 2);
@@ -192,8 +197,8 @@ Definition fin_unpack (data : bytes) : res FinishedPdu :=
   let params := {| fn_cc := cc; fn_dc := dc; fn_fs := fs; fn_resps := []; fn_fault := None |} in
   let p := {| fin_fdir := f; fin_params := params |} in
   let current_idx := current_idx + 1 in
-  if len data >? current_idx then
-    fin_unpack_tlvs p (slice data current_idx (fin_packet_len p))
+  if end_of_params >? current_idx then
+    fin_unpack_tlvs p (slice data current_idx end_of_params)
   else Ok p.
 
 (* ---- equality ---- *)
@@ -213,7 +218,8 @@ Definition resps_eq (a b : list fsresp) : res bool :=
 Definition fault_eq (a b : option tlv) : res bool :=
   match a, b with
   | None, None => Ok true
-  | Some x, Some y => entity_eqb x y
+  | Some x, Some y =>      (* EntityIdTlv.__eq__: the numerical values, int.from_bytes(value, "big") *)
+      Ok (be_decode (tlv_value x) =? be_decode (tlv_value y))
   | _, _ => Ok false
   end.
 (* dataclass __eq__ of FinishedParams: tuple comparison, field by field up to the first
